@@ -72,13 +72,14 @@ def judgeTarLine (mode pre spec : String) (out : List String) : String :=
       -- retriever.Unpack and (since the F11 repair) plain UnpackTar promise staging; the direct encrypted API does not
       let c : UnpackCase := { staged := base.startsWith "staged" || base.startsWith "plain", force := base.endsWith "force",
                               preFull := pre = "full", explicit := es }
-      match judgeUnpack c o with
+      -- `+trunc`, `+nofinal`, `+garbage`, `+flipfinal`: the envelope itself was tampered with; it must not unpack
+      if (mode.splitOn "+").length > 1 ∧ o.ok then s!"reject tampered-envelope-accepted api={base} new={o.newFiles}"
+      else match judgeUnpack c o with
       | none => "ok"
       | some cls => s!"reject {cls} api={base} new={o.newFiles}"
     | _, _ => "reject bad-output " ++ " ".intercalate out
 
-def step (_ : Unit) (ts : List String) : Unit × String :=
-  let (op, out) := splitArrow ts
+def stepBase (op out : List String) : Unit × String :=
   match op with
   | "dump" :: _ => match out with
     | "ok" :: _ => ((), "ok")
@@ -87,7 +88,10 @@ def step (_ : Unit) (ts : List String) : Unit × String :=
   | ["arc", "noop"] => ((), judgeLoadLine .pristine out)
   | "sub" :: f :: _ => ((), judgeLoadLine (if f = "0" then .manifest else .fragment) out)
   | "trunc" :: f :: _ => ((), judgeLoadLine (if f = "0" then .manifest else .fragment) out)
-  | "append" :: f :: _ => ((), judgeLoadLine (if f = "0" then .manifest else .fragment) out)
+  | ["append", f, _, v] =>
+    -- bytes appended to manifest.json: JSON white space is legal after the value, anything else must be refused
+    let space := v = "9" ∨ v = "10" ∨ v = "13" ∨ v = "32"
+    ((), judgeLoadLine (if f = "0" then (if space then .manifest else .garbage) else .fragment) out)
   | "del" :: f :: _ => ((), judgeLoadLine (if f = "0" then .manifest else .fragment) out)
   | "swap" :: _ => if out = ["identical"] then ((), "ok") else ((), judgeLoadLine .fragment out)
   | "copy" :: _ => if out = ["identical"] then ((), "ok") else ((), judgeLoadLine .fragment out)
@@ -115,6 +119,42 @@ def step (_ : Unit) (ts : List String) : Unit × String :=
   | "canon" :: _ => ((), "ok")
   | "join" :: _ => ((), "ok")
   | _ => ((), "reject bad-op " ++ " ".intercalate op)
+
+def hexNats (h : String) : Option Bytes := (hexBytes h.toList).map (fun bs => bs.map UInt8.toNat)
+
+partial def stepOp (op out : List String) : Unit × String :=
+  match op with
+  | "with" :: beh :: inner =>
+    -- the wrapped op judged as usual; a reader that answers (0, nil) or fails transiently may make the honest
+    -- input fail (safely): that is not a violation
+    let r := stepOp inner out
+    if (beh = "zero" ∨ beh = "timeout") ∧ r.2.startsWith "reject pristine-input-rejected" then ((), "ok") else r
+  | ["mtail", _, h] => match hexNats h with
+    | some bs => ((), judgeLoadLineSkip (if jsonSpaceOnly bs then .manifest else .garbage) out)
+    | none => ((), "reject bad-op")
+  | ["mhead", _, h] => match hexNats h with
+    | some bs => ((), judgeLoadLineSkip (if jsonSpaceOnly bs then .manifest else .garbage) out)
+    | none => ((), "reject bad-op")
+  | ["umtail", mode, pre, h] =>
+    match hexNats h, parseUnpackObs out with
+    | some bs, some o =>
+      let c : UnpackCase := { staged := mode.startsWith "staged", force := mode.endsWith "force", preFull := pre = "full", explicit := [] }
+      if ¬ jsonSpaceOnly bs ∧ o.ok then ((), s!"reject manifest-with-garbage-accepted api={mode}")
+      else match judgeUnpack c o with
+        | none => ((), "ok")
+        | some cls => ((), s!"reject {cls} api={mode} new={o.newFiles}")
+    | _, _ => ((), "reject bad-output " ++ " ".intercalate out)
+  | "arckey" :: "malformed" :: v :: _ =>
+    -- bytes AFTER an intact key envelope: the key reader takes the first JSON value; the key is the right one
+    if v.startsWith "tail" then ((), judgeLoadLine .manifest out) else ((), judgeLoadLine .key out)
+  | _ => stepBase op out
+where
+  judgeLoadLineSkip (k : MutKind) (out : List String) : String :=
+    if out.head? = some "skip" then "ok" else judgeLoadLine k out
+
+def step (_ : Unit) (ts : List String) : Unit × String :=
+  let (op, out) := splitArrow ts
+  stepOp op out
 
 def stepPath (_ : Unit) (ts : List String) : Unit × String :=
   let (op, out) := splitArrow ts
